@@ -37,6 +37,8 @@ type c14HResp struct {
 	chunked    bool // the response does not announce its length
 }
 
+var errC14Decode = errors.New("proto: cannot parse")
+
 type c14NetErr struct{ temporary bool }
 
 func (e *c14NetErr) Error() string   { return "net" }
@@ -77,6 +79,11 @@ func c14ClientDo(c *http.Client, req *http.Request) (*http.Response, error) {
 func c14Marshal(m proto.Message) ([]byte, error) { return c14HPayload, nil }
 
 func c14Unmarshal(b []byte, m proto.Message) error {
+	// only the body of the response being handled decodes (the model's
+	// protobuf responses have the one-byte body {1})
+	if len(b) != 1 || b[0] != 1 {
+		return errC14Decode
+	}
 	r := c14HScript[c14HCalls-1]
 	if r.partial {
 		c14SetPartial(m, r.rejected, r.msg)
